@@ -217,6 +217,45 @@ pub fn eval_c04(line: &str) -> String {
     })
 }
 
+/// The same value with every object rebuilt through another sequence of operations.
+fn rebuilt(v: &Value, route: usize) -> Value {
+    use json_syntax::object::Entry;
+    match v {
+        Value::Array(a) => Value::Array(a.iter().map(|x| rebuilt(x, route)).collect()),
+        Value::Object(o) => {
+            let es: Vec<Entry> = o.iter().map(|e| Entry::new(e.key.clone(), rebuilt(&e.value, route))).collect();
+            let mut n = json_syntax::Object::new();
+            match route {
+                0 => {
+                    for e in es.into_iter().rev() {
+                        n.push_front(e.key, e.value);
+                    }
+                }
+                1 => {
+                    for e in es.into_iter().rev() {
+                        n.push_entry_front(e);
+                    }
+                }
+                2 => {
+                    // all but the first at the back, then the first in front
+                    let mut it = es.into_iter();
+                    let first = it.next();
+                    for e in it {
+                        n.push_entry(e);
+                    }
+                    if let Some(e) = first {
+                        n.push_front(e.key, e.value);
+                    }
+                }
+                3 => n.extend(es),
+                _ => n = es.into_iter().map(|e| (e.key, e.value)).collect(),
+            }
+            Value::Object(n)
+        }
+        other => other.clone(),
+    }
+}
+
 // ------------------------------------------------------------------ C08
 pub fn eval_c08(line: &str) -> String {
     let Some((_, v)) = decode_case(line) else { return format!("BADCASE {line}") };
@@ -231,6 +270,10 @@ pub fn eval_c08(line: &str) -> String {
         // "alternate"); folded into the third column so that the line format is unchanged
         let flags_ok = format!("{:#}", v) == c && format!("{:>12}", v) == c && format!("{:<3.1}", v) == c && format!("{}", &v) == c;
         let c = if flags_ok { c } else { format!("FLAGS-CHANGE-DISPLAY {c}") };
+        // the text is a function of the value, not of how its objects were put together: the same entries
+        // reached through front pushes in reverse, insert_front, push_entry(_front), extend, FromIterator
+        let routes_ok = (0..5).all(|route| rebuilt(&v, route).compact_print().to_string() == a);
+        let c = if routes_ok { c } else { format!("CONSTRUCTION-ROUTE-CHANGES-TEXT {c}") };
         format!("{} {} {} {}", hex_str(&a), hex_str(&b), hex_str(&c), hex_str(&d))
     })
 }
